@@ -87,7 +87,7 @@ DefaultRuleNames == <<"remove_spaces", "remove_comments", "compute_expression", 
 \* strings are opaque to TLA+: validity of globs / regexes / identifiers / numerals is tabulated over the sample universe
 InvalidGlobs   == {"[", "**a", "{a"}
 InvalidRegexes == {"(", "[a"}
-InvalidIdents  == {"not valid", "1x"}
+InvalidIdents  == {"not valid", "1x", "$lune", "$Roblox", "$defaults", "$"}      \* incl. `$name` entries that are not one of the two groups
 ValidGlob(p)  == p \notin InvalidGlobs
 ValidRegex(p) == p \notin InvalidRegexes
 ValidIdent(p) == p \notin InvalidIdents
